@@ -259,6 +259,7 @@ func c15Pool(seed int64) []c15Op {
 		"zone-canonical", "zone-offset", "zone-miscased", "zone-miscased", "zone-upper", "sql-backslash-literal", "sql-backslash-escape", "sql-backslash-both", "sql-backslash-both", "nested-literals", "nested-literals", "nested-literals-fail", "rename-onto-field", "rename-onto-tag", "rename-tag-onto-field", "rename-chain", "many-keys", "many-keys",
 		"grok-alias-digits", "grok-alias-letters", "grok-alias-top", "grok-alias-loop", "grok-alias-inner", "grok-alias-shadow", "grok-global-only",
 		"use-badre", "use-badre", "use-badre-twice", "arg-badre", "arg-badre", "arg-baddt", "badre",
+		"unenc-over-int", "unenc-over-str", "unenc-over-float", "scalar-readers", "scalar-readers",
 		"void-operand", "void-operand", "void-iterable", "void-in", "void-compound", "void-after-len", "void-unary"} {
 		name := name
 		ops = append(ops, c15Op{"run:" + name, func(st *c15State) string { return c15RunV1(st, name, &drive.RunState{Budget: 20000}) }})
